@@ -511,11 +511,9 @@ def run_decl(ctx, d, cands, work):
             key = None
             pk_change = d.pk and entry in ('assign', 'set') and exp[0] == 'ok' and not (exp[1] == base_val)
             if pk_change:
-                # a valid but different key: refused because a primary key cannot change (TypeError), not because of a constraint
-                ctx.count('pk-change-refused')
-                if not (got[0] == 'error' and got[1] == 'TypeError'):
-                    what = 'assigning a different valid value to a primary key is not refused with "Cannot change value of primary key"'
-                    key = 'pk-change:%s:%s:%s' % (text, show(v), entry)
+                # a valid but different key is refused because a primary key cannot change (TypeError) — not a declared constraint, so
+                # not the property's subject: only counted here; the model (assignPk) is compared with the real outcome below
+                ctx.count('pk-change:%s' % ('refused-TypeError' if got == ('error', 'TypeError') else 'other:%s' % (got[1] if got[0] == 'error' else 'accepted')))
             elif got[0] == 'ok' and exp[0] == 'reject':
                 what = 'a value that violates the declared constraints (%s) is accepted' % exp[1]
                 nanb = kind == 'float' and exp[1] in ('below min', 'above max') and isinstance(_as_float(w), float) and _as_float(w) != _as_float(w)
